@@ -135,7 +135,7 @@ def rand_def(rng, *, nstates=None, ntrans=None, provs=("sm",), dense=0.5, coro=0
             cbs.append(twin)
     used = [e for e in evs if any(e in t["evs"] for t in trans)]
     return {"name": name, "states": states, "trans": trans, "initial": ids[0], "cbs": cbs,
-            "evstyle": "param", "evlist": used}
+            "evstyle": "param", "evlist": used, "anon_callables": rng.random() < 0.3}
 
 
 VALUE_SCHEMES = ["id", "int0", "negint", "emptystr", "enum", "tuple", "bool", "mixed"]
